@@ -8,6 +8,7 @@ Nothing here decides a property: the recorded labels are replayed by the model i
 checks that every label is an enabled transition with the recorded outcome.
 """
 import collections
+import signal
 
 from harness import core, gristenv as G
 
@@ -462,3 +463,22 @@ def inject_order(e, priority):
     key = lambda w: (priority(w.node), w.node)
     return sorted(other, key=key, reverse=True) + sorted(lk, key=key, reverse=True)
   e._make_sorted_work_items = sort_items
+
+
+class Timeout(Exception):
+  """An engine call exceeded its time limit (recalculation must terminate)."""
+
+
+def _alarm(_s, _f):
+  raise Timeout()
+
+
+def limited(fn, seconds=15):
+  """Run fn() under a wall-clock limit (SIGALRM; main thread only)."""
+  old = signal.signal(signal.SIGALRM, _alarm)
+  signal.alarm(seconds)
+  try:
+    return fn()
+  finally:
+    signal.alarm(0)
+    signal.signal(signal.SIGALRM, old)
